@@ -38,10 +38,7 @@ def chiAndQaz (mu eta : α) (V : M3 α) : Py (α × α) :=
 def refConChiPhi (chi phi psi theta : α) (N_phi : M3 α) : Py (List (RTuple α)) :=
   let V := M3.mul (M3.mul (M3.mul (M3.mul (Gen.rot_CHI chi) (Gen.rot_PHI phi)) N_phi) (M3.transpose (Gen.x_rotation psi)))
             (M3.transpose (Gen.z_rotation (-theta)))
-  match (do let b ← bound (-V.a21); pyAsin b : Py α) with
-  | .error .assertion => .ok []
-  | .error e => .error e
-  | .ok asin_mu =>
+  tryAssert (boundAsin (-V.a21)) fun asin_mu =>
     let mu_vals := if isSmall (cos asin_mu) then [asin_mu] else [asin_mu, pi - asin_mu]
     forM' mu_vals fun mu =>
       let sgn := sign (cos mu)
@@ -59,12 +56,7 @@ def Vref (psi theta : α) (N_phi : M3 α) : M3 α :=
 /-- `__calc_sample_ref_con_mu_eta` -/
 def refConMuEta (mu eta psi theta : α) (N_phi : M3 α) : Py (List (RTuple α)) :=
   let V := Vref psi theta N_phi
-  match (do
-      let s ← pySqrt (sin eta * sin eta * (cos mu * cos mu) + sin mu * sin mu)
-      bound (-V.a21 / s) : Py α) with
-  | .error .assertion => .ok []
-  | .error e => .error e
-  | .ok bot => do
+  tryAssert (pySqrt (sin eta * sin eta * (cos mu * cos mu) + sin mu * sin mu) >>= fun s => bound (-V.a21 / s)) fun bot => do
     let chi_vals ←
       if isSmall (cos mu * sin eta) then do
         let eps := atan2 (sin eta * cos mu) (sin mu)
@@ -81,12 +73,7 @@ def refConMuEta (mu eta psi theta : α) (N_phi : M3 α) : Py (List (RTuple α)) 
 /-- `__calc_sample_ref_con_chi_eta` -/
 def refConChiEta (chi eta psi theta : α) (N_phi : M3 α) : Py (List (RTuple α)) :=
   let V := Vref psi theta N_phi
-  match (do
-      let s ← pySqrt (sin eta * sin eta * (sin chi * sin chi) + cos chi * cos chi)
-      bound (-V.a21 / s) : Py α) with
-  | .error .assertion => .ok []
-  | .error e => .error e
-  | .ok bot => do
+  tryAssert (pySqrt (sin eta * sin eta * (sin chi * sin chi) + cos chi * cos chi) >>= fun s => bound (-V.a21 / s)) fun bot => do
     let mu_vals ←
       if isSmall (cos chi) then do
         let eps := atan2 (cos chi) (sin chi * sin eta)
@@ -103,12 +90,7 @@ def refConChiEta (chi eta psi theta : α) (N_phi : M3 α) : Py (List (RTuple α)
 /-- `__calc_sample_ref_con_chi_mu` -/
 def refConChiMu (chi mu psi theta : α) (N_phi : M3 α) : Py (List (RTuple α)) :=
   let V := Vref psi theta N_phi
-  match (do
-      let b ← bound ((-V.a21 - cos chi * sin mu) / (sin chi * cos mu))
-      pyAsin b : Py α) with
-  | .error .assertion => .ok []
-  | .error e => .error e
-  | .ok asin_eta =>
+  tryAssert (boundAsin ((-V.a21 - cos chi * sin mu) / (sin chi * cos mu))) fun asin_eta =>
     .ok <| [asin_eta, pi - asin_eta].map fun eta =>
       let (qaz, phi) := phiAndQaz chi eta mu V
       (qaz, psi, mu, eta, chi, phi)
@@ -121,10 +103,7 @@ def refConMuPhi (mu phi psi theta : α) (N_phi : M3 α) : Py (List (RTuple α)) 
   let V := Vref2 phi psi theta N_phi
   if isSmall (cos mu) then .error .dce
   else
-    match (do let b ← bound (V.a11 / cos mu); pyAcos b : Py α) with
-    | .error .assertion => .ok []
-    | .error e => .error e
-    | .ok acos_eta =>
+    tryAssert (boundAcos (V.a11 / cos mu)) fun acos_eta =>
       forM' [acos_eta, -acos_eta] fun eta => do
         let (qaz, chi) ← chiAndQaz mu eta V
         pure [(qaz, psi, mu, eta, chi, phi)]
@@ -134,10 +113,7 @@ def refConEtaPhi (eta phi psi theta : α) (N_phi : M3 α) : Py (List (RTuple α)
   let V := Vref2 phi psi theta N_phi
   if isSmall (cos eta) then .error .dce
   else
-    match (do let b ← bound (V.a11 / cos eta); pyAcos b : Py α) with
-    | .error .assertion => .ok []
-    | .error e => .error e
-    | .ok acos_mu =>
+    tryAssert (boundAcos (V.a11 / cos eta)) fun acos_mu =>
       forM' [acos_mu, -acos_mu] fun mu => do
         let (qaz, chi) ← chiAndQaz mu eta V
         pure [(qaz, psi, mu, eta, chi, phi)]
